@@ -88,7 +88,12 @@ def gen(tier, rng):
         stream = b"".join(r.render() for r in reqs)
         big = rng.chance(1, 3)
         acts = [action_str([(None, 2048)], respond_str(200, body_bytes("a%d" % k, 70000 if big else 300), not big)) for k in range(len(reqs))]
-        for cut in cuts_for(rng, reqs, stream, tier):
+        cuts = cuts_for(rng, reqs, stream, tier)
+        if big and len(cuts) > 12:
+            # every case line carries the 70 000-byte answers: a sample of the cut points, not all of them
+            # (the thorough tier once wrote 28 GB of case files here)
+            cuts = sorted(set(cuts[rng.below(len(cuts))] for _ in range(12)))
+        for cut in cuts:
             want = expected_delivered(reqs, cut)
             kind = rng.choice(["half", "half", "half", "full", "rst", "unread"])
             tr = "t" if kind in ("rst", "unread") else "u"
